@@ -1,5 +1,6 @@
 import Driver.Common
 import UralModel.Model.Quote
+import UralModel.Model.Canonicalize
 import UralModel.Gen.QuoteTables
 /-! Driver handler for `ural/quote.py` (C14; also used by C01/C02). -/
 open Lean Ural Ural.Quote
@@ -16,6 +17,10 @@ def unsafeOf (fn : String) : Option (List UInt8) :=
   | "safely_unquote_fragment" => some Gen.Quote.unsafeForFragment
   | _ => none
 
+def unquoterNames : List String :=
+  ["safely_unquote_auth_item", "safely_unquote_path", "safely_unquote_query_item",
+    "safely_unquote_fragment"]
+
 def call (fn : String) (s : List Char) : Option (List Char) :=
   match fn with
   | "safely_quote" => some (safelyQuote s)
@@ -29,6 +34,30 @@ def handle (f : String) (j : Json) : Option Json :=
     match call (fieldStr j "fn") s with
     | some r => some (jstr (unchars r))
     | none => some (jerr "bad-fn")
+  | "chains" =>
+    -- the compositions the theorems of Props/C14 speak about (and `canonicalize_url` applies):
+    -- per unquoter u: q(u s), u(q(u s)), q(u(q(u s))), u(u s), u(upper s), upper(u s);
+    -- then upper(upper s), q(upper s), upper(q s), q(q s)
+    let s := chars (fieldStr j "s")
+    let per := unquoterNames.flatMap fun fn =>
+      match unsafeOf fn with
+      | some U =>
+        let u := safelyUnquote U
+        [safelyQuote (u s), u (safelyQuote (u s)), safelyQuote (u (safelyQuote (u s))), u (u s),
+          u (upperQuoted s), upperQuoted (u s)]
+      | none => []
+    let rest := [upperQuoted (upperQuoted s), safelyQuote (upperQuoted s), upperQuoted (safelyQuote s),
+      safelyQuote (safelyQuote s)]
+    some (jlist ((per ++ rest).map fun r => jstr (unchars r)))
+  | "qsl" =>
+    -- `safely_unquote_qsl` / `safely_quote_qsl` (the models `canonicalize_url`'s model uses) on the
+    -- pairs [(s, None), (s, s), ("", s)], and quote ∘ unquote on them
+    let s := chars (fieldStr j "s")
+    let qsl : List (List Char × Option (List Char)) := [(s, none), (s, some s), ([], some s)]
+    let pj (l : List (List Char × Option (List Char))) : Json :=
+      jlist (l.map fun (k, v) => jlist [jstr (unchars k), match v with | some x => jstr (unchars x) | none => .null])
+    some (jlist [pj (Canonicalize.unquoteQsl qsl), pj (Canonicalize.quoteQsl qsl),
+      pj (Canonicalize.quoteQsl (Canonicalize.unquoteQsl qsl))])
   | "pct" => some (bytesJson (pctStr (chars (fieldStr j "s"))))
   | "utf8seg" =>
     -- segmentation of a byte list: [["c", codepoint] | ["b", byte]]
